@@ -871,13 +871,25 @@ func checkQuitHasExternalCloser(c *Ctx, rule string) {
 			if !closes || blocks {
 				continue
 			}
-			// called from outside the component (or an exported method reached through an interface)
+			// called from outside the component, by a caller that does not also create the component (a closer that
+			// only runs on the creation path cannot end a component that is already running)
 			ext := false
 			for _, ed := range p.callersOf(f) {
-				if p.isTestFn(ed.Caller.Func) {
+				caller := ed.Caller.Func
+				if p.isTestFn(caller) || isOwnerMethod(caller) {
 					continue
 				}
-				if !isOwnerMethod(ed.Caller.Func) {
+				creates := false
+				for _, h := range append([]*ssa.Function{caller}, staticCalleesDeep(caller, 1)...) {
+					eachInstr(h, func(_ *ssa.BasicBlock, _ int, x ssa.Instruction) {
+						if al, ok := x.(*ssa.Alloc); ok && al.Heap {
+							if nt := namedOf(deref(al.Type())); nt != nil && nt.Obj().Name() == ownerName && nt.Obj().Pkg() == q.Pkg() {
+								creates = true
+							}
+						}
+					})
+				}
+				if !creates {
 					ext = true
 				}
 			}
